@@ -82,4 +82,28 @@ example :
     findClose (build true d.text) d.text 4 = some 5 ∧ findClose (build true d.text) d.text 0 = some 6 := by
   refine ⟨rfl, ?_, ?_⟩ <;> decide +kernel
 
+/-- For every value `v` (container, string, number, `true`/`false`/`null`) occupying the token
+segment after `A` in a valid document, `skip_value` at the byte position of its first byte returns
+the position of the byte just after its last byte.  For a number the byte following it, if any,
+must not be one of `0-9 - + . e E` (`find_number_end` is greedy over that class); in a document a
+value is followed by whitespace, `,`, `]`, `}` or the end of the text, so this always holds there. -/
+theorem skip_value_eq (hasAvx2 : Bool) (d : Doc) (A B : List Tok) (v : JVal)
+    (hocc : d.toks = A ++ v.toks ++ B)
+    (hnum : ∀ n, v = .num n → ∀ b, (toksBytes B).head? = some b → isNumberByte b = false) :
+    skipValue (build hasAvx2 d.text) d.text (toksBytes A).length =
+      some ((toksBytes A).length + (toksBytes v.toks).length) := by
+  rw [Doc.text, hocc]; exact skipValue_in_context hasAvx2 A B v hnum
+
+/-- Non-vacuity: `[-1.5e3,"a\"b"]`: the number at byte 1 ends at 7, the string at 8 ends at 14, the
+array at 0 ends at 15. -/
+example :
+    let num : JVal := .num ⟨true, .nonzero 0 [], some (5, []), some ⟨false, none, 3, []⟩⟩
+    let str : JVal := .str [.plain ⟨0x61#8, by decide⟩, .esc .quote, .plain ⟨0x62#8, by decide⟩]
+    let d : Doc := ⟨[], .arr [] num [] (.cons [] str [] .nil), []⟩
+    d.toks = [.lbracket] ++ num.toks ++ ([.comma] ++ str.toks ++ [.rbracket]) ∧
+    d.text.length = 15 ∧
+    skipValue (build true d.text) d.text 1 = some 7 ∧ skipValue (build true d.text) d.text 8 = some 14 ∧
+    skipValue (build true d.text) d.text 0 = some 15 := by
+  refine ⟨rfl, ?_, ?_, ?_, ?_⟩ <;> decide +kernel
+
 end SV.Props.C32
